@@ -484,14 +484,27 @@ def check_tree(ctx: Any, rig: Rig, tree: dict[str, Any], route: str, redactor: s
             if any(spec_designates(k) for k in tree):
                 _fail(ctx, case, "C35:key-dropped:top", f"claims absent from the record ({fname}) although the default redactor did not fail")
                 return
-    # K: what is stored under `claims` (uncapped formatters agree; take the access formatter)
+    # K: what is stored under `claims` (uncapped formatters agree; take the access formatter) — batched, see flush_logged
     if ctx.driver is not None and jsonlike:
         rec = json.loads(lines["access"])
-        impl = rec.get("claims")
-        m = ctx.driver.call("C35.logged", {"claims": enc(tree), "redactor": redactor})
+        _PENDING.append((case, {"claims": enc(tree), "redactor": redactor}, rec.get("claims")))
+        if len(_PENDING) >= 3000:
+            flush_logged(ctx)
+
+
+_PENDING: list[tuple[Any, Any, Any]] = []
+
+
+def flush_logged(ctx: Any) -> None:
+    if ctx.driver is None or not _PENDING:
+        _PENDING.clear()
+        return
+    res = ctx.driver.batch([("C35.logged", a) for _c, a, _i in _PENDING])
+    for (case, _a, impl), m in zip(_PENDING, res):
         want = None if m is None else json.loads(json.dumps(dec(m)))
         if impl != want:
             ctx.mismatch(case, want, impl, "claims in the record: model vs implementation")
+    _PENDING.clear()
 
 
 def _depth(v: Any) -> int:
@@ -609,47 +622,34 @@ def _norm(p: str) -> str:
 
 
 def small_trees() -> list[dict[str, Any]]:
-    """All claim objects over keys {email, x}, values {marker, {…}, […]} with nesting <= 3 and width <= 2 (thorough tier)."""
+    """Every claim object of the grammar  O ::= {k: V} | {x: V, email: V},  k in {email, x},  V ::= leaf | O | [V]
+    with at most two levels of nesting below the top-level object (1763 trees; thorough tier)."""
     n = [0]
-
-    def leaf() -> str:
-        n[0] += 1
-        return f"S3CR3T-x-{n[0]}-Z"
 
     def vals(d: int) -> list[Any]:
         out: list[Any] = ["LEAF"]
         if d > 0:
-            for o in objs(d - 1):
-                out.append(o)
-            for v in vals(d - 1):
-                out.append([v])
-            sub = vals(d - 1)[:3]
-            for a in sub:
-                for b in sub:
-                    out.append([a, b])
+            out += objs(d - 1)
+            out += [[v] for v in vals(d - 1)]
         return out
 
     def objs(d: int) -> list[dict[str, Any]]:
-        out: list[dict[str, Any]] = []
         vs = vals(d)
-        for v in vs:
-            out.append({"email": v})
-            out.append({"x": v})
-        for v in vs[:4]:
-            for w in vs[:4]:
-                out.append({"x": v, "email": w})
+        out: list[dict[str, Any]] = [{k: v} for k in ("email", "x") for v in vs]
+        out += [{"x": v, "email": w} for v in vs for w in vs]
         return out
 
     def fresh(v: Any) -> Any:
         if v == "LEAF":
-            return leaf()
+            n[0] += 1
+            return f"S3CR3T-x-{n[0]}-Z"
         if isinstance(v, dict):
             return {k: fresh(x) for k, x in v.items()}
         if isinstance(v, list):
             return [fresh(x) for x in v]
         return v
 
-    return [fresh(o) for o in objs(3)]
+    return [fresh(o) for o in objs(2)]
 
 
 # ------------------------------------------------------------------------------------------ run / replay
@@ -657,6 +657,7 @@ def small_trees() -> list[dict[str, Any]]:
 
 def run(ctx: Any) -> None:
     _FAIL_SEEN.clear()
+    _PENDING.clear()
     rng = ctx.rng
     thorough = ctx.tier == "thorough"
     max_depth = 9 if thorough or ctx.deep else 6
@@ -703,6 +704,7 @@ def run(ctx: Any) -> None:
         ]
         for t in odd:
             check_tree(ctx, rig, t, "direct", "default", jsonlike=False)
+        flush_logged(ctx)
     finally:
         rig.close()
 
@@ -721,5 +723,6 @@ def replay(ctx: Any, case: dict[str, Any]) -> None:
     rig = Rig()
     try:
         check_tree(ctx, rig, tree, case["route"], case["redactor"])
+        flush_logged(ctx)
     finally:
         rig.close()
